@@ -142,6 +142,9 @@ fn main() {
             // panics inside the library are observations (caught); panics in the harness itself are
             // machinery failures and must be visible
             std::panic::set_hook(Box::new(|info| {
+                if info.payload().downcast_ref::<util::Budget>().is_some() {
+                    return;
+                }
                 if let Some(l) = info.location() {
                     if !l.file().contains("/repo/") && !l.file().contains(".cargo/registry") && !l.file().contains("/rustc/") {
                         println!("MACHINERY: harness panic at {}:{}: {}", l.file(), l.line(), info);
